@@ -8,13 +8,17 @@
 (*                identity, None handling, untouched-unless-listed, the dictionary built    *)
 (*                by fill_attr_apply (as coded) equals "outer after inner".                 *)
 (*  mode "focus": every pair of elements (attr map, optional focus map) x focus flag.       *)
+(*  mode "hist":  outer(inner(text)) rendered again and again while the maps are changed    *)
+(*                and every canvas is kept: canvases built on the cached canvas of the      *)
+(*                inner widget share its parts; copying on apply keeps every held canvas    *)
+(*                right, writing the map into the shared parts (the wrong design) does not. *)
 (* The Wrong* invariants state deliberately wrong readings and must be REFUTED.             *)
 EXTENDS AttrFlowOps
 
 CONSTANTS N, D, Tags, Modes, U, MaxKeys      \* Modes: which of "tree", "maps", "focus" are explored in this run
 
-VARIABLES mode, m, ch, foc, plan
-vars == <<mode, m, ch, foc, plan>>
+VARIABLES mode, m, ch, foc, plan, hs
+vars == <<mode, m, ch, foc, plan, hs>>
 
 (* ---- all markup trees ---- *)
 Run(lo, hi) == [j \in 1..(hi - lo + 1) |-> lo + j - 1]
@@ -64,8 +68,37 @@ GrowTree ==
                /\ plan' = [plan EXCEPT !.kids = Append(@, c)]
 NoPlan == [k |-> 0, root |-> "-", tag |-> 0, cuts |-> <<>>, kids |-> <<>>, done |-> TRUE]
 
+(* ---- histories of renderings over shared canvases (mode "hist") ---- *)
+\* hs.cache: what the cached canvas of the inner widget shows (a function U -> U); hs.held: every canvas rendered so far
+\* [shown, want, shared]: what it shows now, what it had to show when it was rendered, and whether it is built on the parts
+\* of the current cached inner canvas.  hs.inplace selects the wrong design: applying the outer map rewrites the shared
+\* parts, so the cached inner canvas and every canvas built on it change with each rendering of the outer widget.
+HMaps == {<<>>} \cup {<<<<k, v>>>> : k \in U, v \in U}
+Fn(mp) == [x \in U |-> MapGet(mp, x)]
+NoHs == [inner |-> <<>>, outer |-> <<>>, cache |-> Fn(<<>>), held |-> <<>>, n |-> 0, inplace |-> FALSE]
+HistSteps == 3
+HRenderOuter ==
+  LET shown == [x \in U |-> MapGet(hs.outer, hs.cache[x])]
+      want == [x \in U |-> ApplyMaps(<<El(hs.inner), El(hs.outer)>>, FALSE, x)]
+      new == [shown |-> shown, want |-> want, shared |-> TRUE]
+  IN hs' = IF hs.inplace
+           THEN [hs EXCEPT !.cache = shown, !.n = @ + 1,
+                           !.held = Append([j \in 1..Len(@) |-> IF @[j].shared THEN [@[j] EXCEPT !.shown = shown] ELSE @[j]], new)]
+           ELSE [hs EXCEPT !.held = Append(@, new), !.n = @ + 1]
+HRenderInner ==      \* the inner widget on its own: its cached canvas
+  hs' = [hs EXCEPT !.held = Append(@, [shown |-> hs.cache, want |-> Fn(hs.inner), shared |-> TRUE]), !.n = @ + 1]
+HSetOuter(b) == hs' = [hs EXCEPT !.outer = b, !.n = @ + 1]                     \* invalidates the outer widget only
+HSetInner(a) == hs' = [hs EXCEPT !.inner = a, !.cache = Fn(a), !.n = @ + 1,    \* a new inner canvas: the old parts are shared no more
+                                 !.held = [j \in 1..Len(@) |-> [@[j] EXCEPT !.shared = FALSE]]]
+HistNext == \/ HRenderOuter \/ HRenderInner \/ \E b \in HMaps : HSetOuter(b) \/ HSetInner(b)
+HeldRight == \A j \in 1..Len(hs.held) : hs.held[j].shown = hs.held[j].want
+HistLaws == mode = "hist" /\ ~hs.inplace => HeldRight
+WrongInPlace == mode = "hist" /\ hs.inplace => HeldRight          \* to be refuted
+
 Init ==
   /\ mode \in Modes
+  /\ IF mode = "hist" THEN \E a \in HMaps, b \in HMaps, ip \in BOOLEAN : hs = [NoHs EXCEPT !.inner = a, !.outer = b, !.cache = Fn(a), !.inplace = ip]
+     ELSE hs = NoHs
   /\ CASE mode = "tree"  -> /\ plan \in Plans /\ m = Leaf(<<>>)
                             /\ ch = <<>> /\ foc = FALSE
        [] mode = "maps"  -> /\ m = Leaf(<<>>) /\ plan = NoPlan
@@ -74,15 +107,19 @@ Init ==
        [] mode = "focus" -> /\ m = Leaf(<<>>) /\ plan = NoPlan
                             /\ \E a \in Maps : ch = <<El(a)>>          \* focus map and outer element are added by Next
                             /\ foc \in BOOLEAN
+       [] mode = "hist"  -> m = Leaf(<<>>) /\ plan = NoPlan /\ ch = <<>> /\ foc = FALSE
 Next == \/ /\ mode = "tree" /\ ~plan.done
            /\ GrowTree
-           /\ UNCHANGED <<mode, ch, foc>>
+           /\ UNCHANGED <<mode, ch, foc, hs>>
         \/ /\ mode = "maps" /\ Len(ch) = 1
            /\ \E b \in Maps, c \in Maps : ch' = ch \o <<El(b), El(c)>>
-           /\ UNCHANGED <<mode, m, foc, plan>>
+           /\ UNCHANGED <<mode, m, foc, plan, hs>>
         \/ /\ mode = "focus" /\ Len(ch) = 1
            /\ \E b \in Maps, c \in Maps, hf \in BOOLEAN : ch' = <<(IF hf THEN ElF(ch[1].amap, b) ELSE ch[1]), El(c)>>
-           /\ UNCHANGED <<mode, m, foc, plan>>
+           /\ UNCHANGED <<mode, m, foc, plan, hs>>
+        \/ /\ mode = "hist" /\ hs.n < HistSteps
+           /\ HistNext
+           /\ UNCHANGED <<mode, m, ch, foc, plan>>
 Spec == Init /\ [][Next]_vars
 
 (* ---- markup laws ---- *)
@@ -145,7 +182,7 @@ ASSUME RefutedWithinSmallBounds == WrongReadingsRefuted      \* checked once by 
 PE(name, fgc, bgc, hasfh, fghc, hasbh, bghc, largeh) ==
   [name |-> name, alias |-> FALSE, like |-> 0, mono |-> <<4>>, fg |-> <<fgc, <<1>>>>, bg |-> bgc,
    hasfh |-> hasfh, fgh |-> <<<<fghc, <<>>>>, <<fghc + 1, <<>>>>, <<fghc + 2, <<3>>>>>>, hasbh |-> hasbh,
-   bgh |-> <<bghc, bghc + 1, bghc + 2>>, largeh |-> largeh]
+   bgh |-> <<bghc, bghc + 1, bghc + 2>>, largeh |-> largeh, fghc |-> NumC, bghc |-> NumC]
 AL(name, like) == [PE(name, 0, 0, FALSE, 0, FALSE, 0, FALSE) EXCEPT !.alias = TRUE, !.like = like]
 Pal1 == <<PE(1, 9, 4, TRUE, 1016, TRUE, 1100, FALSE), AL(2, 1), PE(3, 2, -1, FALSE, 0, TRUE, 1017, TRUE), AL(1, 3), AL(4, 2)>>
 PaletteLawsHold ==
@@ -160,4 +197,34 @@ PaletteLawsHold ==
   /\ ResolvePen(Pal1, 7, 256) = DefaultP /\ ResolvePen(Pal1, None, 16) = DefaultP  \* undefined names: the default
   /\ \A d \in {1, 16, 88, 256, TrueDepth} : ResolvePen(Pal1, 4, d) = ResolvePen(<<Pal1[1]>>, 1, d)
 ASSUME PaletteLaws == PaletteLawsHold
+
+(* ---- hexadecimal RGB colours: documented examples, and the reduction of '#rrggbb' ---- *)
+HexEntry(fc, bc) == [PE(5, 9, 4, TRUE, 1016, TRUE, 1100, FALSE) EXCEPT !.fghc = fc, !.bghc = bc]
+HexColourLawsHold ==
+  \* AttrSpec('#ddb', '#004', 256) -> AttrSpec('#dda', '#006'); AttrSpec('#ddb', '#004', 88) -> AttrSpec('#ccc', '#000', colors=88)
+  /\ CubeColour(X3(13, 13, 11), 256) = 1187 /\ CubeColour(X3(0, 0, 4), 256) = 1017
+  /\ CubeColour(X3(13, 13, 11), 88) = 1058 /\ CubeColour(X3(0, 0, 4), 88) = 1016
+  \* colour numbers and their descriptions: 17 is '#006' (256) / '#008' (88), 230 is '#ffd', 78 is '#ffc', '#f00' is 196 / 64
+  /\ CubeColour(X3(0, 0, 6), 256) = 1017 /\ CubeColour(X3(15, 15, 13), 256) = 1230 /\ CubeColour(X3(15, 0, 0), 256) = 1196
+  /\ CubeColour(X3(0, 0, 8), 88) = 1017 /\ CubeColour(X3(15, 15, 12), 88) = 1078 /\ CubeColour(X3(15, 0, 0), 88) = 1064
+  \* the closest cube level is never ambiguous for a one-digit intensity
+  /\ \A depth \in {88, 256} : \A d \in 0..15 :
+        LET s == CubeSteps(depth) IN Cardinality({i \in 1..Len(s) : \A j \in 1..Len(s) : Dist(s[i], 17 * d) <= Dist(s[j], 17 * d)}) = 1
+  \* '#rrggbb' with fewer colours: like the '#rgb' of its leading digits, whatever the second digits are
+  /\ \A depth \in {88, 256} : \A hi \in {0, 1, 5, 8, 13, 15} : \A lo \in {0, 7, 15} :
+        /\ CubeColour(X6(16 * hi + lo, lo, 16 * lo + hi), depth) = CubeColour(X3(hi, 0, lo), depth)
+        /\ CubeColour(X6(lo, 16 * hi + lo, 255), depth) = CubeColour(X3(0, hi, 15), depth)
+  \* ... and not like the '#rgb' of its second digits (a wrong reading, refuted): '#d75f00' is '#d50', not '#7f0'
+  /\ CubeColour(X6(215, 95, 0), 88) = CubeColour(X3(13, 5, 0), 88) /\ CubeColour(X6(215, 95, 0), 88) # CubeColour(X3(7, 15, 0), 88)
+  /\ CubeColour(X6(215, 95, 0), 88) = 1052 /\ CubeColour(X6(31, 0, 51), 88) = 1016
+  \* 2^24 colours: exact; '#rgb' there is the 256-colour cube colour it names
+  /\ HexColourAt(X6(215, 95, 0), TrueDepth) = TrueDepth + 14114560
+  /\ HexColourAt(X3(15, 12, 12), TrueDepth) = TrueDepth + 255 * 65536 + 215 * 256 + 215
+  \* through a palette entry: the hexadecimal form counts at 88 / 256 / 2^24 colours only
+  /\ LET p == <<HexEntry(X6(215, 95, 0), X6(31, 0, 51))>> IN
+       /\ ResolvePen(p, 5, 88) = [fg |-> 1052, bg |-> 1016, fl |-> {}]
+       /\ ResolvePen(p, 5, 256) = [fg |-> 1000 + 16 + 4 * 36 + 1 * 6, bg |-> 1000 + 16 + 1, fl |-> {}]
+       /\ ResolvePen(p, 5, TrueDepth) = [fg |-> TrueDepth + 14114560, bg |-> TrueDepth + 31 * 65536 + 51, fl |-> {3}]
+       /\ ResolvePen(p, 5, 16) = [fg |-> 9, bg |-> 4, fl |-> {1}]
+ASSUME HexColourLaws == HexColourLawsHold
 =============================================================================
